@@ -32,6 +32,13 @@ def done_grows(st0, st):
     return z3.ForAll([_m], z3.Implies(z3.Select(d0, _m), z3.Select(d1, _m)))
 
 
+def pending_not_done(st0, st):
+    """a module that is pending (being elaborated further up the stack) is not marked done by anything that runs below it"""
+    p0 = st0.heap.get("pending", CACHE)
+    d0, d1 = st0.heap.get("done", CACHE), st.heap.get("done", CACHE)
+    return z3.ForAll([_m], z3.Implies(z3.Select(p0, _m), z3.Select(d1, _m) == z3.Select(d0, _m)))
+
+
 def stack_same(st0, st, self_z):
     return st.heap.get("stack", self_z) == st0.heap.get("stack", self_z)
 
@@ -76,13 +83,15 @@ class ElabBase(Contract):
                 ("done-monotone", lambda eng, st0, st, a, res: done_grows(st0, st)),
                 ("stack-restored", lambda eng, st0, st, a, res: stack_same(st0, st, a.self.z)),
                 ("poison-kept", lambda eng, st0, st, a, res: z3.And(inv_poison(st), poison_kept(st0, st))),
-                ("poison-only-where-broken", lambda eng, st0, st, a, res: inv_poison_only(st))]
+                ("poison-only-where-broken", lambda eng, st0, st, a, res: inv_poison_only(st)),
+                ("pending-not-marked-done", lambda eng, st0, st, a, res: pending_not_done(st0, st))]
 
     def common_xposts(self):
         return [("pending-restored", lambda eng, st0, st, a, E: pending_same(st0, st)),
                 ("done-monotone", lambda eng, st0, st, a, E: done_grows(st0, st)),
                 ("poison-kept", lambda eng, st0, st, a, E: z3.And(inv_poison(st), poison_kept(st0, st))),
-                ("poison-only-where-broken", lambda eng, st0, st, a, E: inv_poison_only(st))]
+                ("poison-only-where-broken", lambda eng, st0, st, a, E: inv_poison_only(st)),
+                ("pending-not-marked-done", lambda eng, st0, st, a, E: pending_not_done(st0, st))]
     posts = property(lambda self: self.common_posts())
     xposts = property(lambda self: self.common_xposts())
 
@@ -113,7 +122,8 @@ class Virtual(ElabBase):
 
     def common_xposts(self):
         base = [("pending-restored", lambda eng, st0, st, a, E: pending_same(st0, st)),
-                ("done-monotone", lambda eng, st0, st, a, E: done_grows(st0, st))]
+                ("done-monotone", lambda eng, st0, st, a, E: done_grows(st0, st)),
+                ("pending-not-marked-done", lambda eng, st0, st, a, E: pending_not_done(st0, st))]
         if self.marks_broken:
             # the only place where inv_poison is (temporarily) broken: restored by elaborate_module_base's handler
             return base + [("poison-kept", lambda eng, st0, st, a, E: poison_kept(st0, st)),
@@ -160,6 +170,10 @@ class ModuleBase(ElabBase):
         return z3.Implies(was_done, same)
 
     posts = property(lambda self: self.common_posts() + [("in-done", self.p_done), ("cache-hit-untouched", self.p_cached)])
+    # a module on (or below) which the pass failed is NOT recorded as done by it: the next call must reach the failure again
+    xposts = property(lambda self: self.common_xposts() + [
+        ("failed-module-not-marked-done", lambda eng, st0, st, a, E:
+         z3.Select(st.heap.get("done", CACHE), a.module.z) == z3.Select(st0.heap.get("done", CACHE), a.module.z))])
     must_raise = property(lambda self: [("poisoned", lambda eng, st0, a:
                                          st0.heap.get("Module._elab_error", a.module.z) != NULL)])
 
@@ -203,7 +217,8 @@ class Tops(ElabBase):
 def _loop_inv(eng, st_entry, st_now):
     me = st_now.locals["self"]
     return z3.And(pending_same(st_entry, st_now), done_grows(st_entry, st_now), stack_same(st_entry, st_now, me.z),
-                  inv_poison(st_now), inv_poison_only(st_now), poison_kept(st_entry, st_now))
+                  inv_poison(st_now), inv_poison_only(st_now), poison_kept(st_entry, st_now),
+                  pending_not_done(st_entry, st_now))
 
 
 _K = "hdl21.elab.passes.base:ElabPass."
